@@ -786,6 +786,8 @@ func (a *Authenticator) handleSessionResumption(ctx context.Context, sessionID s
 		if err := a.setupStreamEncryption(negotiation); err != nil {
 			return nil, fmt.Errorf("failed to setup stream encryption: %w", err)
 		}
+	} else if err := a.continueUnencrypted(negotiation); err != nil {
+		return nil, err
 	}
 
 	slog.Info(fmt.Sprintf("🔐 SERVER: Successfully resumed session %s", redactSessionID(sessionID)), "destination", "cedar")
@@ -1550,6 +1552,8 @@ func (a *Authenticator) resumeSession(ctx context.Context, entry *SessionEntry, 
 		if err := a.setupStreamEncryption(negotiation); err != nil {
 			return nil, fmt.Errorf("failed to setup stream encryption: %w", err)
 		}
+	} else if err := a.continueUnencrypted(negotiation); err != nil {
+		return nil, err
 	}
 
 	return negotiation, nil
@@ -1781,7 +1785,7 @@ func (a *Authenticator) setupStreamEncryption(negotiation *SecurityNegotiation) 
 			// If ECDH fails, log but don't fail the entire handshake
 			// This allows tests with placeholder keys to work
 			slog.Debug(fmt.Sprintf("⚠️  CRYPTO: ECDH key exchange failed (continuing without encryption): %v", err), "destination", "cedar")
-			return nil
+			return a.continueUnencrypted(negotiation)
 		}
 
 		slog.Debug("🔐 CRYPTO: ECDH successful, deriving AES key...", "destination", "cedar")
@@ -1824,6 +1828,22 @@ func (a *Authenticator) setupStreamEncryption(negotiation *SecurityNegotiation) 
 	// Freeze it now so the application phase -- e.g. a large collector query stream --
 	// skips the per-frame SHA256. Idempotent on an already-frozen (resumed) session.
 	a.stream.FinalizeDigests()
+	return a.continueUnencrypted(negotiation)
+}
+
+// continueUnencrypted is how a handshake ends when no session key was installed
+// on the stream. The negotiation may have decided Encryption=true (a side
+// requires it) and the peer then omitted, truncated or garbled its key-exchange
+// material, so two things must happen here rather than trusting that decision:
+// the reported flag is taken from the stream's real state, and the cleartext
+// outcome is refused when this endpoint's own policy requires encryption or
+// integrity (cedar provides integrity only through AES-GCM).
+func (a *Authenticator) continueUnencrypted(negotiation *SecurityNegotiation) error {
+	encrypted := a.stream.IsEncrypted()
+	negotiation.Encryption = encrypted
+	if !encrypted && (a.config.Encryption == SecurityRequired || a.config.Integrity == SecurityRequired) {
+		return fmt.Errorf("local policy requires encryption/integrity but no session key could be established with the peer")
+	}
 	return nil
 }
 
